@@ -2,10 +2,11 @@
     Statement file: theorems closed by [exact] of lemmas of Proofs/Ticks_facts.v (Flocq model, real
     analysis: the standard library's real-number axioms appear below) and Proofs/Ticks_sweep_all.v
     (primitive-float mirror, vm_compute reflection: FloatAxioms / primitive ints appear below). *)
-From Coq Require Import ZArith List Bool.
+From Coq Require Import ZArith List Bool Reals.
+From Flocq Require Import Core.Core IEEE754.BinarySingleNaN.
 Import ListNotations.
-Require Import MS.Base.GoInt MS.Model.Ticks MS.Model.TicksPF MS.Proofs.Ticks_facts MS.Proofs.Ticks_sweep
-  MS.Proofs.Ticks_sweep_all MS.Proofs.Ticks_equiv.
+Require Import MS.Base.GoInt MS.Base.F64 MS.Model.Ticks MS.Model.TicksPF MS.Proofs.Ticks_facts MS.Proofs.Ticks_sweep
+  MS.Proofs.Ticks_sweep_all MS.Proofs.Ticks_equiv MS.Proofs.Ticks_accuracy.
 Local Open Scope Z_scope.
 
 (** Order: for EVERY on-disk timeframe and EVERY pair of offsets inside an interval the encoder
@@ -70,12 +71,40 @@ Proof.
 Qed.
 Print Assumptions C10_refuted_1min.
 
-(** The guarded bound for ALL timeframes — stated, NOT proved (partial; checked on every generated
-    case by in-Coq evaluation: Corr/C10.model_prop under Corr/C10.in_domain). *)
+(** The guarded bound for ALL timeframes — stated, NOT proved (partial results below; checked on every
+    generated case by in-Coq evaluation: Corr/C10.model_prop under Corr/C10.in_domain). *)
 Definition C10_bound_guarded : Prop := forall ipd o, In ipd ipds -> 0 <= o < interval_ns ipd ->
   guard_C10 ipd o = true ->
   let o' := dec_offset ipd (enc ipd o) in
   0 <= o' <= o /\ o - o' <= step_ns ipd /\ (ipd = 86400 -> o' = o).
+
+(** PARTIAL results towards C10_bound_guarded (analytic, for ALL timeframes and ALL offsets; u = 2^-53).
+
+    Encoder: the tick count is the exact count 2^32 * o / interval truncated, up to a relative error
+    of 6u (five roundings plus the representation error of the constant 2^32/86400). *)
+Theorem C10_enc_accuracy_partial : forall ipd o, In ipd ipds -> (0 <= o < interval_ns ipd)%Z ->
+  let X := (4294967296 * IZR o / IZR (interval_ns ipd))%R in
+  ((1 - 6 * u) * X - 1 < IZR (enc ipd o) <= (1 + 6 * u) * X)%R.
+Proof. exact enc_accuracy. Qed.
+Print Assumptions C10_enc_accuracy_partial.
+
+(** ... in nanoseconds: the encoded tick lies at most 6u*o (< 0.06 ns) after the original offset and
+    less than one resolution step interval/2^32 (+ 6u*o) before it. *)
+Theorem C10_enc_position_partial : forall ipd o, In ipd ipds -> (0 <= o < interval_ns ipd)%Z ->
+  let pos := (IZR (enc ipd o) * IZR (interval_ns ipd) / 4294967296)%R in
+  ((1 - 6 * u) * IZR o - IZR (interval_ns ipd) / 4294967296 < pos <= (1 + 6 * u) * IZR o)%R.
+Proof. exact enc_position. Qed.
+Print Assumptions C10_enc_position_partial.
+
+(** Decoder, tick -> time direction: the float fractionalSeconds of GetTimeFromTicks is the exact
+    position of the tick (in seconds) up to a relative error of 4u, for every intervalsPerDay <= 2^17
+    and every uint32 tick count.  (The extraction of (sec, nanosec) from it — Floor, the 1e8 rounding
+    that causes F1, the +0.5 truncation — is NOT covered: that is what C10_bound_guarded still lacks.) *)
+Theorem C10_dec_fs_accuracy_partial : forall ipd k, (1 <= ipd <= 2 ^ 17)%Z -> (0 <= k < 2 ^ 32)%Z ->
+  let p := (IZR k / tps_exact ipd)%R in
+  ((1 - 4 * u) * p <= B2R (dec_fs ipd k) <= (1 + 4 * u) * p)%R.
+Proof. exact dec_fs_accuracy. Qed.
+Print Assumptions C10_dec_fs_accuracy_partial.
 
 (** Non-vacuity: an offset in a swept block inside the guard; and the guard of the general bound *)
 Example C10_nonvacuous :
